@@ -372,7 +372,8 @@ def coq_eval_lines(tag, header, terms, shard=400, timeout=900, wrap="render_line
 
     def run(job):
         name, path, n = job
-        p = subprocess.run(["timeout", str(timeout), "coqc", "-Q", ".", "V", "-w", "none", os.path.join("Cases", name + ".v")],
+        p = subprocess.run(["bash", "-c", "ulimit -s unlimited 2>/dev/null || ulimit -s 1000000; exec timeout %d coqc -Q . V -w none %s"
+                            % (timeout, os.path.join("Cases", name + ".v"))],
                            cwd=COQ, stdout=subprocess.PIPE, stderr=subprocess.PIPE, text=True)
         for ext in (".v", ".vo", ".vok", ".vos", ".glob"):
             try:
